@@ -8,7 +8,7 @@
 (* walk goes on (report-and-resync); <<"VDONE", lines, ops, nbad>> is       *)
 (* printed when every line has been consumed.                               *)
 (***************************************************************************)
-EXTENDS Ops, Json, IOUtils, SequencesExt
+EXTENDS Ops, Gray, BitKernels, Json, IOUtils, SequencesExt
 
 Tr == ndJsonDeserialize(IOEnv.TRACE)
 N == Len(Tr)
@@ -144,15 +144,56 @@ AlgOK(ev) ==
          SolveOK(Pre(O(ev, 3)), Pre(O(ev, 2)), Post(O(ev, 2)), ev.ret)
     [] op = "kernel_left_pluq" -> KernelOK(Pre(O(ev, 2)), HasR(ev), Post(ev.o[Len(ev.o)]))
 
+\* word-level kernels and the code book (C19): the dumped data is judged against spec/alg
+SeqEq(s, f(_), n) == Len(s) = n /\ \A j \in 1 .. n : s[j] = f(j - 1)
+\* the k-bit index x selects rows r+j for the bits j of x; only columns >= c are specified
+TableRowOK(M, T, L, r, c, k, x) ==
+  LET want == XorRows({r + j : j \in BitsOfInt(x, k)}, M.r) IN
+  {cc \in T.r[L[x + 1]] : cc >= c} = {cc \in want : cc >= c}
+WordKernelFamily == {"code", "make_table", "parity64", "masks", "swap_bits", "spread_shrink", "lesser_lsb"}
+WordKernelOK(ev) ==
+  LET op == ev.op  p == ev.p IN
+  CASE op = "code" ->
+         LET k == p.k  n == 2 ^ p.k  a == Tr[p.L_arr] IN
+         /\ p.gray_eq_ord = 1
+         /\ Len(a.ord) = n /\ Len(a.inc) = n
+         /\ \A j \in 0 .. n - 1 : a.ord[j + 1] = GrayCode(j, k) /\ a.inc[j + 1] = IncOf(j, k)
+         \* the properties themselves, evaluated on the dumped data
+         /\ {a.ord[j] : j \in 1 .. n} = 0 .. n - 1
+         /\ \A j \in 0 .. n - 1 :
+               LET x == BitsOfInt(a.ord[j + 1], k)  y == BitsOfInt(a.ord[((j + 1) % n) + 1], k)
+               IN Xor(x, y) = {a.inc[j + 1]}
+    [] op = "make_table" ->
+         LET M == Pre(O(ev, 1))  T == Post(O(ev, 2)) IN
+         /\ Len(p.L) = 2 ^ p.k
+         /\ {p.L[j] : j \in 1 .. 2 ^ p.k} = 0 .. 2 ^ p.k - 1
+         /\ \A x \in 0 .. 2 ^ p.k - 1 : TableRowOK(M, T, p.L, p.r, p.c, p.k, x)
+    [] op = "parity64" -> BitsAt(p.L_res) = Parity64(BitsAt(p.L_buf))
+    [] op = "masks" ->
+         /\ BitsAt(p.L_left) = LeftMask(p.n)
+         /\ (p.n >= 1 => BitsAt(p.L_right) = RightMask(p.n))
+         /\ (p.n >= 1 => /\ p.nmid = WB - p.n + 1
+                          /\ LET mids == BitsAt(p.L_mid) IN
+                             \A off \in 0 .. p.nmid - 1 :
+                                {b - off * WB : b \in {x \in mids : x >= off * WB /\ x < (off + 1) * WB}} = MiddleMask(p.n, off))
+    [] op = "swap_bits" -> BitsAt(p.L_res) = SwapBits(BitsAt(p.L_v))
+    [] op = "spread_shrink" ->
+         LET from == BitsAt(p.L_from)  low == {b \in from : b < p.len} IN
+         /\ BitsAt(p.L_spread) = Spread(low, p.Q, p.len, p.base)
+         /\ BitsAt(p.L_shrink) = Shrink(from, p.Q, p.len, p.base)
+         /\ BitsAt(p.L_back) = low                       \* mutually inverse
+    [] op = "lesser_lsb" -> ev.ret = LesserLSB(BitsAt(p.L_a), BitsAt(p.L_b))
+
 ResultOK(ev) ==
   CASE ev.op \in MulFamily -> MulOK(ev)
+    [] ev.op \in WordKernelFamily -> WordKernelOK(ev)
     [] ev.op \in AlgFamily -> AlgOK(ev)
     [] ev.op \in MoveFamily -> MoveOK(ev)
     [] ev.op \in RowOpsFamily -> RowOpsOK(ev)
     [] ev.op \in ObsFamily -> ObsOK(ev)
     [] OTHER -> TRUE
 
-Known(ev) == ev.op \in MulFamily \cup MoveFamily \cup RowOpsFamily \cup ObsFamily \cup AlgFamily
+Known(ev) == ev.op \in MulFamily \cup MoveFamily \cup RowOpsFamily \cup ObsFamily \cup AlgFamily \cup WordKernelFamily
 
 Checks(ev) ==
   IF ev.die = 1
